@@ -121,6 +121,18 @@ def coq_props(ctx, pid):
     return ok, out
 
 
+def coq_chk(ctx, pid):
+    """independent re-check of props/<pid>.vo and everything it depends on (thorough tier)"""
+    coq = os.path.join(ctx.root, "coq")
+    with flock(ctx, "coq"):
+        rc, out = sh(["coqchk", "-silent", "-o", "-Q", ".", "Chess", "Chess.props.%s" % pid], 3000, cwd=coq)
+    ok = rc == 0 and "* Axioms: <none>" in out and "type-in-type: <none>" in out and "positivity is assumed: <none>" in out \
+        and "unsafe (co)fixpoints: <none>" in out
+    ctx.oblige("coqchk -o Chess.props.%s : re-checked by the independent checker, Axioms: <none>" % pid, ok, out[-1500:] if not ok else "")
+    ctx.coverage["coqchk"] = out[-400:].strip()
+    return ok
+
+
 def strip_comments(s):
     out, depth, i = [], 0, 0
     while i < len(s):
@@ -433,6 +445,8 @@ def main(root, argv):
         pok, pout = coq_props(ctx, pid)
         coq_ok = coq_ok and pok
     hygiene(ctx)
+    if coq_ok and tier == "thorough" and not spec.get("no_coqchk"):
+        coq_chk(ctx, pid)
     broken_proof = None
     if not coq_ok:
         m = re.search(r'File "\./([^"]+)", line (\d+)', out)
